@@ -30,6 +30,9 @@ def note_draw(ctx, rng, what, value):
 
 @model('SeedableRng::seed_from_u64')
 def _seed_from_u64(ctx, args, ck):
+    if not hasattr(ctx, 'rng_seed_terms'):
+        ctx.rng_seed_terms = []
+    ctx.rng_seed_terms.append(args[0])
     return RngObj('seeded', args[0])
 
 
